@@ -12,6 +12,8 @@ def make_gen(scenario):
         rounds = 60 if tier == "quick" else 150      # many short cases rather than few long ones (per-case watchdog)
         if scenario == "seqcancel":
             rounds = 6 if tier == "quick" else 20    # (each round waits for a publisher to reach the handler's lock)
+        if scenario == "seqburst":
+            rounds = 3000 if tier == "quick" else 10000   # (a burst takes ~0.1 ms; the window it looks for is a few instructions wide)
         return [["%s %d %d" % (scenario, rng.randrange(1 << 30), rounds)] for _ in range(n)]
     return gen
 
